@@ -537,12 +537,65 @@ class Norm:
             finally:
                 self.env = saved
         if k == "match":
+            sc_ = strip(n["scrut"])
+            if sc_ is not None and sc_.get("k") == "mcall" and sc_.get("name") == "partial_cmp" and len(sc_["args"]) == 1:
+                return self.match_ordering(n, sc_)
             return self.match_option(n)
         if k == "path":
             return Rat.atom(n["def"])
         if k == "tup":
             return fn_atom("tup", *[self.norm(x) for x in n["xs"]])
         raise ValueError("E1 cannot normalise %s: %s" % (k, short(pretty(n), 80)))
+
+    def match_ordering(self, n, sc):
+        """`match a.partial_cmp(b) { Some(Equal) => E, Some(Greater) => G, Some(Less) | None => L }` as ite(a == b, E, ite(a > b, G, L)):
+        the ordering tests are the comparisons themselves; the unordered case (a NaN operand) makes every comparison false, so it must share
+        its value with the case that is reached last (the final `else` of the comparison chain)."""
+        a, b = self.norm(sc["recv"]), self.norm(sc["args"][0])
+        ty = (self.c.ty(strip(sc["recv"])) or "").lstrip("&")
+        isint = ty in INT_TYS
+        case = {}
+
+        def kinds(p_):
+            while p_.get("k") in ("ref", "deref"):
+                p_ = p_["p"]
+            if p_.get("k") == "or":
+                out = []
+                for q in p_["ps"]:
+                    out += kinds(q)
+                return out
+            if p_.get("k") == "wild":
+                return ["*"]
+            if p_.get("k") == "ppath" and p_["path"].endswith("::None"):
+                return ["None"]
+            if p_.get("k") == "tstruct" and p_["path"].endswith("::Some") and len(p_["ps"]) == 1:
+                q = p_["ps"][0]
+                while q.get("k") in ("ref", "deref"):
+                    q = q["p"]
+                if q.get("k") == "ppath" and q["path"].rsplit("::", 1)[-1] in ("Equal", "Greater", "Less"):
+                    return [q["path"].rsplit("::", 1)[-1]]
+                if q.get("k") == "wild":
+                    return ["Some*"]
+            raise ValueError("E1: unsupported pattern on an Ordering")
+        for arm in n["arms"]:
+            if arm.get("guard") is not None:
+                raise ValueError("E1: guarded arm on an Ordering")
+            v = self.norm(arm["body"])
+            for kd in kinds(arm["pat"]):
+                targets = {"*": ["Equal", "Greater", "Less", "None"], "Some*": ["Equal", "Greater", "Less"]}.get(kd, [kd])
+                for t_ in targets:
+                    case.setdefault(t_, v)
+        if set(case) != {"Equal", "Greater", "Less", "None"}:
+            raise ValueError("E1: Ordering match does not cover every case")
+        eq = cmp_atom("Eq", a, b, integer=isint)
+        # chain `==`, then one strict comparison; the remaining ordered case must agree with the unordered one
+        if case["Less"] == case["None"]:
+            return ite(eq, case["Equal"], ite(cmp_atom("Gt", a, b, integer=isint), case["Greater"], case["Less"]))
+        if case["Greater"] == case["None"]:
+            return ite(eq, case["Equal"], ite(cmp_atom("Lt", a, b, integer=isint), case["Less"], case["Greater"]))
+        if case["Equal"] == case["None"]:
+            return ite(cmp_atom("Gt", a, b, integer=isint), case["Greater"], ite(cmp_atom("Lt", a, b, integer=isint), case["Less"], case["Equal"]))
+        raise ValueError("E1: the unordered case of an Ordering match has a value of its own")
 
     def match_option(self, n):
         """`match <place> { Some(x) => A, None => B }` as ite(is_some(place), A[x := place.Some], B)"""
@@ -813,6 +866,14 @@ class Sym:
             return out
         if k == "blk":
             return self._exec_block(s, states)
+        if k == "match" and strip(s["scrut"]) is not None and strip(s["scrut"]).get("k") == "mcall" and strip(s["scrut"]).get("name") == "partial_cmp" \
+                and not self._has_effects(s):
+            # an effect-free match on an Ordering is a value: `match a.partial_cmp(b) { .. }`
+            for (g, st, env) in states:
+                st = dict(st)
+                st["<value>"] = self._norm(st, env).norm(s)
+                out.append((g, st, env))
+            return out
         if k == "match":
             # `match <param option> { Some(x) => .., None => .. }` as a parameter guard
             arms_ = s["arms"]
